@@ -77,7 +77,11 @@ def check_scripts(env, rep, prop, scripts, oracle, nontrivial=None):
             rep.count("discarded:timer-tie")
             continue
         if starved:
-            raise HarnessError("model ran out of time-out draws: " + line[:300])
+            # the model opened more exchanges than the implementation drew time-outs for
+            rep.traces += 1
+            rep.disagree({"case": case, "line": line}, "model needs more time-out draws: " + cm[:2000], i[:3000],
+                         what="message layer trace")
+            continue
         rep.traces += 1
         if cm != i:
             rep.disagree({"case": case, "line": line}, cm[:3000], i[:3000], what="message layer trace")
@@ -592,6 +596,17 @@ def oracle_c02(res):
     for r, lst in fl.items():
         if len(lst) > 1:
             return f"failed-twice: request {r}: {lst}"
+        for (tf, kind) in lst:
+            if kind == "NetworkError" and r in subs:
+                errs = [int(f[0]) for (tt, k, f) in ins if k == "E" and tt == tf]
+                if errs and subs[r][3] not in errs:
+                    return (f"wrong-remote-failed: request {r} to endpoint {subs[r][3]} failed because of a "
+                            f"transport error reported for endpoint {errs}")
+            if kind == "ConRetransmitsExceeded" and r in subs:
+                sent_to = {s_["remote"] for s_ in sn if s_["mtype"] == "CON" and s_["tick"] < tf}
+                if subs[r][3] not in sent_to:
+                    return (f"wrong-remote-timeout: request {r} to endpoint {subs[r][3]} failed with a retransmission "
+                            f"time-out although no CON was in flight to it")
     # unmatched confirmable responses are Reset, never delivered (delivery checked above by token/source)
     for (t, k, f) in ins:
         if k != "R" or not (64 <= int(f[3]) < 192) or (shut and t >= shut[0]):
